@@ -486,20 +486,38 @@ def r6_attributes(toks, counts):
                     while k < n and is_p(toks[k], '#'):
                         b = next_sig(toks, k + 1)
                         k = next_sig(toks, match_close(toks, b) + 1)
-                    # find keyword
-                    kk = k
-                    while kk < n and not (toks[kk][0] == 'id' and toks[kk][1] in ITEM_KW + ('let',)):
-                        kk += 1
-                    if kk >= n:
+                    if k >= n:
                         raise ExtractError('R6: cfg(test) attribute without item')
-                    if is_id(toks[kk], 'let'):
-                        e = kk
-                        while e < n and not is_p(toks[e], ';'):
+                    first = toks[k]
+                    nx2 = next_sig(toks, k + 1)
+                    if (first[0] == 'id' and first[1] in BLOCKLIKE) or is_p(first, '{'):
+                        # a statement that is a block-like expression (`if let .. { .. }`): it ends with its last block
+                        e = _stmts(toks, k, n)[0][1] - 1
+                    elif first[0] == 'id' and first[1] not in ITEM_KW + ('let', 'pub') and nx2 < n and is_p(toks[nx2], ':') \
+                            and not (nx2 + 1 < n and is_p(toks[nx2 + 1], ':')):
+                        # a field of a struct declaration or of a struct literal: up to and including its comma
+                        e = nx2
+                        while e < n and not is_p(toks[e], ',') and not is_p(toks[e], '}'):
                             if toks[e][0] == 'p' and toks[e][1] in rtok.OPEN:
                                 e = match_close(toks, e)
                             e += 1
+                        if e < n and is_p(toks[e], '}'):
+                            e -= 1
                     else:
-                        e = _item_end(toks, kk)
+                        # find keyword
+                        kk = k
+                        while kk < n and not (toks[kk][0] == 'id' and toks[kk][1] in ITEM_KW + ('let',)):
+                            kk += 1
+                        if kk >= n:
+                            raise ExtractError('R6: cfg(test) attribute without item')
+                        if is_id(toks[kk], 'let'):
+                            e = kk
+                            while e < n and not is_p(toks[e], ';'):
+                                if toks[e][0] == 'p' and toks[e][1] in rtok.OPEN:
+                                    e = match_close(toks, e)
+                                e += 1
+                        else:
+                            e = _item_end(toks, kk)
                     i = e + 1
                 else:
                     i = cl + 1
@@ -2461,6 +2479,71 @@ def r30_const_static_lifetime(toks, counts):
     return out
 
 
+def r31_slice_empty_match(toks, counts):
+    """`match S { [] => A, name => B }` (a slice scrutinee, an empty-slice arm and a catch-all binding arm) ->
+    `{ let name = S; if name.is_empty() { A } else B }` -- the definition of the two patterns (Verus has no slice patterns)."""
+    out = []
+    i = 0
+    n = len(toks)
+    while i < n:
+        t = toks[i]
+        if is_id(t, 'match'):
+            k = i + 1
+            while k < n and not is_p(toks[k], '{'):
+                if toks[k][0] == 'p' and toks[k][1] in '([':
+                    k = match_close(toks, k)
+                k += 1
+            if k < n:
+                c = match_close(toks, k)
+                a1 = next_sig(toks, k + 1)
+                if a1 + 1 < c and is_p(toks[a1], '[') and is_p(toks[next_sig(toks, a1 + 1)], ']'):
+                    cl = next_sig(toks, a1 + 1)
+                    ar = next_sig(toks, cl + 1)
+                    if ar + 1 < c and is_p(toks[ar], '=') and is_p(toks[ar + 1], '>'):
+                        # first arm body: up to the `,` at depth 0
+                        b0 = next_sig(toks, ar + 2)
+                        q = b0
+                        while q < c and not is_p(toks[q], ','):
+                            if toks[q][0] == 'p' and toks[q][1] in rtok.OPEN:
+                                q = match_close(toks, q)
+                            q += 1
+                        arm1 = toks[b0:q]
+                        nm = next_sig(toks, q + 1)
+                        ar2 = next_sig(toks, nm + 1)
+                        if nm < c and toks[nm][0] == 'id' and ar2 + 1 < c and is_p(toks[ar2], '=') and is_p(toks[ar2 + 1], '>'):
+                            b2 = next_sig(toks, ar2 + 2)
+                            if b2 < c and is_p(toks[b2], '{'):
+                                e2 = match_close(toks, b2)
+                                rest = [x for x in toks[e2 + 1:c] if x[0] not in TRIVIA and not is_p(x, ',')]
+                                if not rest:
+                                    scrut = toks[i + 1:k]
+                                    while scrut and scrut[0][0] == 'ws':
+                                        scrut.pop(0)
+                                    while scrut and scrut[-1][0] == 'ws':
+                                        scrut.pop()
+                                    ind = _line_indent(toks, i)
+                                    name = toks[nm][1]
+                                    pre = []
+                                    ssig = [x for x in scrut if x[0] not in TRIVIA]
+                                    if len(ssig) > 5 and is_p(ssig[0], '&') and [x[1] for x in ssig[-4:]] == ['[', '.', '.', ']']:
+                                        # `&(E)[..]`: the sliced value is bound to a name first (a temporary lives as long as the match anyway);
+                                        # Verus relates a slice to the vector it is taken from only when the vector has a name
+                                        first = next(k2 for k2, x in enumerate(scrut) if is_p(x, '&'))
+                                        last_open = max(k2 for k2, x in enumerate(scrut) if is_p(x, '['))
+                                        inner = scrut[first + 1:last_open]
+                                        pre = rtok.tokenize('let %s_v = ' % name) + inner + [('p', ';'), ('ws', '\n' + ind + '    ')]
+                                        scrut = rtok.tokenize('&%s_v[..]' % name)
+                                    out += [('p', '{'), ('ws', '\n' + ind + '    ')] + pre + rtok.tokenize('let %s = ' % name) + scrut + [('p', ';'), ('ws', '\n' + ind + '    ')] \
+                                        + rtok.tokenize('if %s.is_empty() {' % name) + [('ws', '\n' + ind + '        ')] + arm1 + [('ws', '\n' + ind + '    ')] \
+                                        + rtok.tokenize('} else ') + toks[b2:e2 + 1] + [('ws', '\n' + ind), ('p', '}')]
+                                    counts['R31'] = counts.get('R31', 0) + 1
+                                    i = c + 1
+                                    continue
+        out.append(t)
+        i += 1
+    return out
+
+
 def cleanup_lines(text):
     lines = [l.rstrip() for l in text.split('\n')]
     return [l for l in lines if l.strip() != '']
@@ -2522,6 +2605,7 @@ def extract_region(src_text, path, opts=None):
                 item = r26_iter_chains(item, counts)
             item = r21_map_err_anyhow(item, counts)
             item = r3b_anyhow_macro(item, counts)
+            item = r31_slice_empty_match(item, counts)
             if 'R29' not in opts.get('skip', ()):
                 item = r29_inline_combinators(item, counts, extra=(('map',) if 'R29map' in opts.get('rules', ()) else ()) + (('result',) if 'R29res' in opts.get('rules', ()) else ()))
             if 'R28' in opts.get('rules', ()):
